@@ -235,6 +235,36 @@ func TestC09(t *testing.T) {
 			}
 			return
 		}
+		if rapid.IntRange(0, 29).Draw(rt, "part_bigrows") == 0 {
+			// end to end: a rows event with more than a thousand rows, autocommitted or inside a transaction,
+			// with a cancellation between two parser steps: what is delivered must hold every encoded row
+			b := &seqBuilder{h: &hist.History{FirstFile: "bin.000001", Tables: []hist.Table{c02Table()}}, file: 1, ts: 500}
+			b.h.Cfg = gen.Config(rt)
+			b.h.Cfg.NHeaderSizes = 40
+			b.add(0)
+			n := rapid.SampledFrom([]int{1024, 1025, 1500, 3000}).Draw(rt, "nrows")
+			r := b.rows(0)
+			first := r.Rows[0]
+			r.Rows = make([]hist.Row, n)
+			for i := range r.Rows {
+				r.Rows[i] = first
+			}
+			if rapid.Bool().Draw(rt, "autocommitted") {
+				b.h.Units = append(b.h.Units, hist.Unit{Kind: hist.UAutoRows, Items: []hist.Item{{Kind: hist.IRows, Maps: []int{0}, Rows: []hist.RowsEv{r}, TS: r.TS}}})
+			} else {
+				b.h.Units = append(b.h.Units, hist.Unit{Kind: hist.UTxXID, Begin: b.q("BEGIN"), Items: []hist.Item{{Kind: hist.IRows, Maps: []int{0}, Rows: []hist.RowsEv{r}, TS: r.TS}}, XID: 77, TS: b.t()})
+			}
+			b.add(1)
+			b.h.Base = b.h.MinBase()
+			fc := &FaultCase{H: b.h, Attempts: []AttemptSpec{{Fault: Fault{Kind: "cancel_log", At: rapid.IntRange(1, 40).Draw(rt, "cancel_at_log_call")}}}}
+			rec.Case(true, fc, "e2e/big-rows-event-with-cancel")
+			journal("C09", "c04", fc)
+			if _, err := checkC04(fc); err != nil {
+				rec.Violation("c04", fc, "", err)
+				rt.Fatalf("C09 violation: %v", err)
+			}
+			return
+		}
 		c := &RowsCase{Cfg: gen.Config(rt)}
 		c.Cfg.NHeaderSizes = rapid.IntRange(35, 60).Draw(rt, "nsizes")
 		opt := gen.ColumnOpt{Extra: true}
